@@ -363,6 +363,26 @@ def rule_snell_complex(ctx):
     ctx.ob("snell.complex_branch.limit", ok, "with Im(n2) = 0: n2 sin(theta2) - n1 sin(theta1) = %s" % rem,
            "0: the complex-index formula continues the real one (n1 enters only through the relative index)", node=f.node, func=f)
     ctx.models.append({"rule": "C08.snell", "identity": "complex limit", "cases": 1, "verdict": ok})
+    # the refraction angle depends on the two media only through the relative index n2/n1: scaling both leaves it unchanged
+    A, B, k = sp.symbols("a b k", positive=True)
+    N2 = sp.Symbol("N2")
+    hooks2 = {"sin": lambda u: s if u == TH * sp.pi / 180 else sp.sin(u), "arcsin": lambda u: sp.Function("ASIN")(u),
+              "real": lambda u: A if u == N2 else u, "imag": lambda u: B if u == N2 else sp.Integer(0)}
+    ev2 = Sym(ctx.repo, decide=dec, hooks=hooks2)
+    t2b = ev2.call(EM, "snell", n1, N2, TH)
+    arg2 = None
+    for a_ in t2b.atoms(sp.Function):
+        if a_.func.__name__ == "ASIN":
+            arg2 = a_.args[0]
+    if arg2 is None or arg2.has(N2):
+        raise AnalysisError("snell (complex branch): refraction angle not expressed through real and imaginary part of n2")
+    scaled = arg2.subs({n1: k * n1, A: k * A, B: k * B}, simultaneous=True)
+    v2, info2 = is_zero(sp.simplify(scaled - arg2))
+    if v2 is None:
+        raise AnalysisError("snell (complex branch): scale invariance undecided: %s" % info2)
+    ctx.ob("snell.complex_branch.relative_index", v2 is True, "sin(theta2)(k n1, k n2) - sin(theta2)(n1, n2) = %s" % sp.simplify(scaled - arg2),
+           "0: only the relative index n2/n1 enters (real and imaginary part are both divided by n1 before squaring)", node=f.node, func=f,
+           witness=None if v2 else info2)
 
 
 def run(ctx):
